@@ -8,6 +8,10 @@ ROOT = os.path.dirname(os.path.dirname(os.path.abspath(__file__)))
 
 # id -> (engine, category, technique, text, note, design_ref)
 CHECKS = {
+    "C19": dict(engine="enum", category="exploration", design_ref="DESIGN.md section 7 C19",
+        technique="bounded-exhaustive input enumeration (all strings <=2 bytes, constant fills, deviation<=1 neighbourhoods of per-type seeds) of the real decoders in crash-attributing worker subprocesses",
+        text="Every (first layer, input) case of a finite, completely enumerated space is executed through all three recovery-free entry points (DecodeFromBytes on fresh and re-used values, NewPacket with SkipDecodeRecovery eager/lazy x DSAD, DecodingLayerParser with IgnorePanic); any panic, fatal error, memory blow-up or hang is attributed to one case and keyed by panic site. Exploration level: exhaustive within the stated input bound, silent outside it.",
+        note="Trusted: Go runtime panic/fatal-error reporting, RLIMIT_AS for memory blow-ups, the 120 s no-progress watchdog. Inputs needing >1 deviation from a fixture (thorough: 2 for core types) are not covered."),
 }
 
 PENDING = "check not built yet (building in the order given in DESIGN.md section 11); not claimed until its check exists and passes on the unchanged tree"
